@@ -182,14 +182,14 @@ def run(ctx):
                         "readers returning (0, nil) and white space other than SP/LF are not generated",
                         "lines are written by the harness with the out port's format verbs \"%d %X\\n\" (the midicatdrv package cannot be imported without a midicat binary); TLC checks the text against Line(ts, bytes)"]
     # 1. the specification satisfies the property on the model
-    ctx.model_check("MC_MidicatLine", "MC_MidicatLine.cfg" if q else "MC_MidicatLine_thorough.cfg", coverage=False, timeout=1500)
+    ctx.model_check("MC_MidicatLine", "MC_MidicatLine.cfg" if q else "MC_MidicatLine_thorough.cfg", coverage=False, timeout=1500, heap="4g")
     fails = []
     # 2. G: TLC-made texts and fragmentation paths through the real code
     gex = execute(ctx, graph_experiments(ctx))
     fails += validate(ctx, gex)
     ctx.count(len(gex), [(tuple(r["text"]), r["mode"], tuple(r["sizes"])) for r in gex if r["text"]])
     # 3. T: random records
-    recs = gen(ctx, 1000 if q else 40000, ctx.seed, 6 if q else 12)
+    recs = gen(ctx, 800 if q else 40000, ctx.seed, 6 if q else 12)
     feats = Counter(f for r in recs for f in r["feat"])
     ctx.cov["features"] = dict(feats)
     need = ["wellformed", "neg", "long", "mut:oddhex", "mut:nonhex", "mut:nosep", "mut:noterm", "mode:one", "mode:rand", "mode:dataeof"]
